@@ -57,7 +57,12 @@ MODELS = [
     (r"^(\w+::)*Builder::\w+(::<.*>)?$", m_inline_builder),
     (r"^(\w+::)*(Instruction|Function|Block|Module|ModuleHeader)::new$", m_inline_new),
     (r"CoreInstructionTable::get$", m_table_get),
-    (r"^version::create_word_from_version$", lambda e, s, f, c, a, o: sym.Inline(e.resolve_fn("create_word_from_version"), a)),
+    (r"^(\w+::)*ModuleHeader::(set_version|version)$", lambda e, s, f, c, a, o: sym.Inline(
+        [mf_.parse_item(x[2]) for mf_ in e.mirs for x in mf_.find(c.split("::")[-1]) if "constructs" in x[0]][0], a)),
+    (r"^(\w+::)*(create_word_from_version|create_version_from_word|is_type_identical)$",
+     lambda e, s, f, c, a, o: sym.Inline(e.resolve_fn(c.split("::")[-1]), a)),
+    (r"^core::num::<impl u32>::from_le_bytes$", lambda e, s, f, c, a, o: z3.Concat(*reversed([x for x in a[0].items]))),
+    (r"^core::num::<impl u32>::to_le_bytes$", lambda e, s, f, c, a, o: sym.Arr([z3.Extract(8 * i + 7, 8 * i, a[0]) for i in range(4)])),
 ]
 
 
